@@ -2701,6 +2701,8 @@ impl Translator {
                                 let idx =
                                     self.idx_of_field(&self.statics, mono, accessed, &field_name.v);
                                 self.emit(st, Instr::GetField(idx, Reg::Top));
+                                // (pending_operands: the field's value has taken the place of
+                                // the struct, which went into its temporary)
                                 // add number
                                 self.translate_expr(rvalue, offset_table, mono, st);
                                 perform_op(st);
@@ -2717,10 +2719,13 @@ impl Translator {
                                         // into their temporaries (see collect_locals_stmts)
                                         let array_tmp = *offset_table.get(&array.id).unwrap();
                                         let index_tmp = *offset_table.get(&index.id).unwrap();
+                                        // (a temporary takes its value off the stack)
                                         self.translate_expr(array, offset_table, mono, st);
                                         self.emit(st, Instr::StoreOffset(array_tmp));
+                                        st.pending_operands -= 1;
                                         self.translate_expr(index, offset_table, mono, st);
                                         self.emit(st, Instr::StoreOffset(index_tmp));
+                                        st.pending_operands -= 1;
                                         // args
                                         self.emit(st, Instr::LoadOffset(array_tmp));
                                         self.emit(st, Instr::LoadOffset(index_tmp));
@@ -2730,7 +2735,7 @@ impl Translator {
                                         self.emit(st, Instr::LoadOffset(index_tmp));
                                         self.emit(st, Instr::GetIndex(Reg::Top, Reg::Top));
                                         // array, index and element wait for the new value
-                                        st.pending_operands += 1;
+                                        st.pending_operands += 3;
                                         self.translate_expr(rvalue, offset_table, mono, st);
                                         perform_op(st);
                                         // store in array at index
@@ -2757,10 +2762,13 @@ impl Translator {
                                             SolvedType::Function(set_args, SolvedType::Void.into());
                                         let array_tmp = *offset_table.get(&array.id).unwrap();
                                         let index_tmp = *offset_table.get(&index.id).unwrap();
+                                        // (a temporary takes its value off the stack)
                                         self.translate_expr(array, offset_table, mono, st);
                                         self.emit(st, Instr::StoreOffset(array_tmp));
+                                        st.pending_operands -= 1;
                                         self.translate_expr(index, offset_table, mono, st);
                                         self.emit(st, Instr::StoreOffset(index_tmp));
+                                        st.pending_operands -= 1;
                                         // args of index_set()
                                         self.emit(st, Instr::LoadOffset(array_tmp));
                                         self.emit(st, Instr::LoadOffset(index_tmp));
@@ -2775,7 +2783,7 @@ impl Translator {
                                             &fn_index_get_ty,
                                         );
                                         // array, index and element wait for the new value
-                                        st.pending_operands += 1;
+                                        st.pending_operands += 3;
                                         self.translate_expr(rvalue, offset_table, mono, st);
                                         perform_op(st);
                                         // interface method Index::index_set()
